@@ -35,6 +35,20 @@ def arr_expr(e, env):
     raise Untranslatable(f'array expression {ast.unparse(e)[:60]}')
 
 
+def arr_expr_env(e, textenv):
+    """arr_expr with an environment keyed by source text (e.g. 'psf.data')"""
+    key = ast.unparse(e)
+    if key in textenv:
+        return textenv[key]
+    if isinstance(e, ast.Call):
+        f = ast.unparse(e.func)
+        if f in _UNARY and len(e.args) == 1 and not e.keywords:
+            return f'(P.{_UNARY[f]} {arr_expr_env(e.args[0], textenv)})'
+    if isinstance(e, ast.Attribute) and e.attr == 'real':
+        return f'(P.real {arr_expr_env(e.value, textenv)})'
+    raise Untranslatable(f'array expression {key[:60]}')
+
+
 def _is_doc(s):
     return isinstance(s, ast.Expr) and isinstance(s.value, ast.Constant) and isinstance(s.value.value, str)
 
@@ -108,6 +122,7 @@ def generate(repo):
     ot, _ = load(repo, 'prysm/otf.py')
     dg, _ = load(repo, 'prysm/degredations.py')
     dt, _ = load(repo, 'prysm/detector.py')
+    ft, _ = load(repo, 'prysm/fttools.py')
 
     # ------------------------------------------------------------------ conv
     def conv():
@@ -119,51 +134,109 @@ def generate(repo):
            f'def conv {HDR} (obj psf : A) : A := {M}.conv P obj psf')
 
     # ------------------------------------------------------------------ apply_transfer_functions
-    def atf_parts():
+    GRIDS = ('fx', 'fy', 'fr', 'ft')
+
+    def atf_scan():
+        """classify EVERY statement of the function; anything not recognised makes the item untranslatable.
+        -> dict(pre, step, post, gridblock, callbranch)"""
         fn = get_def(cv, 'apply_transfer_functions')
         body = [s for s in fn.body if not _is_doc(s)]
         env = {'obj': 'obj'}
-        pre = loop = None
-        post = []
-        for s in body:
-            if isinstance(s, ast.Assign) and ast.unparse(s.targets[0]) == 'o':
-                env['o'] = arr_expr(s.value, env)
-            elif isinstance(s, ast.If) and ast.unparse(s.test) == 'shift' and len(s.body) == 1 \
-                    and isinstance(s.body[0], ast.Assign) and ast.unparse(s.body[0].targets[0]) == 'O':
-                assert len(s.orelse) == 1 and ast.unparse(s.orelse[0].targets[0]) == 'O'
-                pre = (arr_expr(s.body[0].value, env), arr_expr(s.orelse[0].value, env))
-            elif isinstance(s, ast.For):
-                loop = s
-            elif loop is not None:
-                post.append(s)
-        if pre is None or loop is None:
-            raise Untranslatable('spectrum / loop not found')
-        # loop: for tf in tfs: [if callable(tf): ... tf = tf(**kwargs)]; O = O * tf
-        assert ast.unparse(loop.target) == 'tf' and ast.unparse(loop.iter) == 'tfs'
-        last = loop.body[-1]
-        if not (isinstance(last, ast.Assign) and ast.unparse(last.targets[0]) == 'O'):
-            raise Untranslatable('loop does not end in O = ...')
-        step = arr_expr(last.value, {'O': 'O', 'tf': 'tf'})
-        for s in loop.body[:-1]:
-            if not (isinstance(s, ast.If) and ast.unparse(s.test) == 'callable(tf)'):
-                raise Untranslatable(f'unexpected statement in the loop: {ast.unparse(s)[:50]}')
-            if any(isinstance(n, ast.Name) and n.id == 'O' for n in ast.walk(s)):
-                raise Untranslatable('callable branch touches O')
-        # post: if shift: return X ; return Y      (or if/else)
-        if len(post) == 2 and isinstance(post[0], ast.If) and ast.unparse(post[0].test) == 'shift' \
-                and isinstance(post[0].body[-1], ast.Return) and isinstance(post[1], ast.Return) and len(post[0].body) == 1:
-            p1 = arr_expr(post[0].body[0].value, {'O': 'O'})
-            p0 = arr_body([post[1]], {'O': 'O'})
-        elif len(post) >= 2 and isinstance(post[0], ast.If) and ast.unparse(post[0].test) == 'shift' \
-                and len(post[0].body) == 1 and isinstance(post[0].body[0], ast.Return):
-            p1 = arr_expr(post[0].body[0].value, {'O': 'O'})
-            p0 = arr_body(post[1:], {'O': 'O'})
-        else:
+        out = {'pre': None, 'step': None, 'post': None, 'gridblock': None, 'callbranch': None}
+        k = 0
+        # [1] optional block that builds the grids for callables
+        if k < len(body) and isinstance(body[k], ast.If) and ast.unparse(body[k].test) == 'any((callable(tf) for tf in tfs))' \
+                and not body[k].orelse:
+            out['gridblock'] = body[k].body
+            k += 1
+        # [2] aliases of the object
+        while k < len(body) and isinstance(body[k], ast.Assign) and ast.unparse(body[k].targets[0]) == 'o':
+            env['o'] = arr_expr(body[k].value, env)
+            k += 1
+        # [3] spectrum in the chosen convention
+        s = body[k] if k < len(body) else None
+        if not (isinstance(s, ast.If) and ast.unparse(s.test) == 'shift' and len(s.body) == 1 and len(s.orelse) == 1
+                and all(isinstance(b, ast.Assign) and ast.unparse(b.targets[0]) == 'O' for b in (s.body[0], s.orelse[0]))):
+            raise Untranslatable(f'expected `if shift: O = ... else: O = ...`, found {ast.unparse(s)[:60] if s else "nothing"}')
+        out['pre'] = (arr_expr(s.body[0].value, env), arr_expr(s.orelse[0].value, env))
+        k += 1
+        # [4] the loop over the transfer functions
+        loop = body[k] if k < len(body) else None
+        if not (isinstance(loop, ast.For) and ast.unparse(loop.target) == 'tf' and ast.unparse(loop.iter) == 'tfs' and not loop.orelse):
+            raise Untranslatable(f'expected `for tf in tfs:`, found {ast.unparse(loop)[:60] if loop else "nothing"}')
+        k += 1
+        lb = list(loop.body)
+        if lb and isinstance(lb[0], ast.If) and ast.unparse(lb[0].test) == 'callable(tf)' and not lb[0].orelse:
+            out['callbranch'] = lb[0].body
+            lb = lb[1:]
+        if not (len(lb) == 1 and isinstance(lb[0], ast.Assign) and ast.unparse(lb[0].targets[0]) == 'O'):
+            raise Untranslatable(f'loop body: {[ast.unparse(x)[:40] for x in lb]}')
+        out['step'] = arr_expr(lb[0].value, {'O': 'O', 'tf': 'tf'})
+        # [5] the way back: `if shift: return X` then straight-line code ending in a return
+        post = body[k:]
+        if not (len(post) >= 2 and isinstance(post[0], ast.If) and ast.unparse(post[0].test) == 'shift'
+                and len(post[0].body) == 1 and isinstance(post[0].body[0], ast.Return)):
             raise Untranslatable('return structure')
-        return pre, step, (p1, p0)
+        if post[0].orelse:
+            if len(post) != 1:
+                raise Untranslatable('return structure')
+            p0 = arr_body(post[0].orelse, {'O': 'O'})
+        else:
+            p0 = arr_body(post[1:], {'O': 'O'})
+        out['post'] = (arr_expr(post[0].body[0].value, {'O': 'O'}), p0)
+        return out
+
+    def call_branch_pairs(stmts):
+        """the `if callable(tf):` branch.  Every statement must be one of the known ones; `tf = tf(**kwargs)` is required
+        verbatim (the value a callable returns is used as is).  -> [(keyword, grid variable)]"""
+        pairs, dicts = {}, {}
+        seen_call = False
+        for st in stmts:
+            src = ast.unparse(st)
+            if src in ('sig = inspect.signature(tf)', 'params = sig.parameters', 'params = inspect.signature(tf).parameters', 'kwargs = {}'):
+                continue
+            if isinstance(st, ast.If) and isinstance(st.test, ast.Compare) and len(st.test.ops) == 1 \
+                    and isinstance(st.test.ops[0], ast.In) and ast.unparse(st.test.comparators[0]) == 'params' \
+                    and isinstance(st.test.left, ast.Constant) and len(st.body) == 1 and not st.orelse:
+                key = st.test.left.value
+                b = st.body[0]
+                if not (isinstance(b, ast.Assign) and ast.unparse(b.targets[0]) == f"kwargs['{key}']" and isinstance(b.value, ast.Name)):
+                    raise Untranslatable(f'keyword wiring {ast.unparse(b)[:50]}')
+                pairs[key] = b.value.id
+                continue
+            if isinstance(st, ast.Assign) and isinstance(st.value, ast.Dict) and isinstance(st.targets[0], ast.Name) \
+                    and all(isinstance(kk, ast.Constant) and isinstance(vv, ast.Name) for kk, vv in zip(st.value.keys, st.value.values)):
+                dicts[st.targets[0].id] = {kk.value: vv.id for kk, vv in zip(st.value.keys, st.value.values)}
+                continue
+            if isinstance(st, ast.Assign) and ast.unparse(st.targets[0]) == 'kwargs' and isinstance(st.value, ast.DictComp):
+                dc = st.value
+                gen = dc.generators[0]
+                d = ast.unparse(dc.value)[:-len(f'[{ast.unparse(dc.key)}]')]
+                ok = len(dc.generators) == 1 and ast.unparse(gen.iter) == 'params' and d in dicts \
+                    and ast.unparse(dc.value) == f'{d}[{ast.unparse(dc.key)}]' and isinstance(gen.target, ast.Name) \
+                    and gen.target.id == ast.unparse(dc.key) and [ast.unparse(c) for c in gen.ifs] == [f'{gen.target.id} in {d}']
+                if not ok:
+                    raise Untranslatable(f'keyword wiring {src[:60]}')
+                pairs.update(dicts[d])
+                continue
+            if src == 'tf = tf(**kwargs)':
+                seen_call = True
+                continue
+            raise Untranslatable(f'statement in the callable branch: {src[:60]}')
+        if not seen_call:
+            raise Untranslatable('`tf = tf(**kwargs)` not found in the callable branch')
+        if not pairs:
+            raise Untranslatable('no keyword wiring found')
+        if not all(v in GRIDS for v in pairs.values()) or not all(kk in GRIDS for kk in pairs):
+            raise Untranslatable(f'keyword wiring through other names: {pairs}')
+        return sorted(pairs.items())
 
     def atf():
-        pre, step, post = atf_parts()
+        sc = atf_scan()
+        if sc['callbranch'] is None:
+            raise Untranslatable('no `if callable(tf):` branch')
+        call_branch_pairs(sc['callbranch'])       # every statement of the branch is a known one
+        pre, step, post = sc['pre'], sc['step'], sc['post']
         return (f'def tfPre {HDR} (shift : Bool) (obj : A) : A :=\n  if shift then {pre[0]} else {pre[1]}\n\n'
                 f'def tfStep {HDR} (O tf : A) : A := {step}\n\n'
                 f'def tfPost {HDR} (shift : Bool) (O : A) : A :=\n  if shift then {post[0]} else\n  {post[1]}\n\n'
@@ -176,78 +249,146 @@ def generate(repo):
            f'def tfPost {HDR} (shift : Bool) (O : A) : A := {M}.tfPost P shift O\n'
            f'def applyTF {HDR} (shift : Bool) (obj : A) (tfs : List A) : A := {M}.applyTF P shift obj tfs')
 
-    # frequency grids handed to callables.  A structural fact is `true` for the known-good shape, `false` only for a
-    # recognised wrong variant, and *untranslatable* (deferred to the widened correspondence) for anything else.
-    def fact_item(name, source, check):
-        def build():
-            return f'def {name} : Bool := {"true" if check() else "false"}'
-        g.item(name, source, lambda: get_def(cv, 'apply_transfer_functions'), build, f'def {name} : Bool := true')
+    # ---- frequency grids handed to callables: forward_ft_unit (fttools.py) translated to an index function of the
+    # frequency numerators, and the call site (which axis length, which `shift`) translated on top of it
+    def vec_expr(e, env):
+        """1-D frequency-vector expression -> Lean term of type Nat -> Int (numerators n*dx*f), for axis length `len`"""
+        if isinstance(e, ast.Name) and e.id in env:
+            return env[e.id]
+        if isinstance(e, ast.Call):
+            f = ast.unparse(e.func)
+            if f in ('fftfreq', 'fft.fftfreq') and [ast.unparse(a) for a in e.args] == ['samples', 'dx'] and not e.keywords:
+                return f'({M}.fftfreqNum len)'
+            if f == 'fft.fftshift' and len(e.args) == 1 and not e.keywords:
+                return f'(fun i => {vec_expr(e.args[0], env)} ({M}.fftshiftSrc len i))'
+            if f == 'fft.ifftshift' and len(e.args) == 1 and not e.keywords:
+                return f'(fun i => {vec_expr(e.args[0], env)} ({M}.ifftshiftSrc len i))'
+        raise Untranslatable(f'frequency vector expression {ast.unparse(e)[:60]}')
 
-    def grid_calls():
-        """[(target name, axis expression, call node)] of the forward_ft_unit calls that build the grids"""
-        fn = get_def(cv, 'apply_transfer_functions')
+    def ft_unit():
+        fu = get_def(ft, 'forward_ft_unit')
+        params = [a.arg for a in fu.args.args]
+        if params != ['dx', 'samples', 'shift'] or [ast.unparse(d) for d in fu.args.defaults] != ['True']:
+            raise Untranslatable(f'forward_ft_unit signature {params}')
+        env = {}
+        body = [s for s in fu.body if not _is_doc(s)]
+        k = 0
+        while k < len(body) and isinstance(body[k], ast.Assign) and isinstance(body[k].targets[0], ast.Name):
+            env[body[k].targets[0].id] = vec_expr(body[k].value, env)
+            k += 1
+        s = body[k] if k < len(body) else None
+        if isinstance(s, ast.If) and ast.unparse(s.test) == 'shift' and len(s.body) == 1 and isinstance(s.body[0], ast.Return):
+            els = s.orelse if s.orelse else body[k + 1:]
+            if len(els) == 1 and isinstance(els[0], ast.Return) and (s.orelse or k + 2 == len(body)):
+                return (f'def ftUnitNum (len : Nat) (shift : Bool) : Nat → Int :=\n'
+                        f'  if shift then {vec_expr(s.body[0].value, env)} else {vec_expr(els[0].value, env)}')
+        raise Untranslatable('forward_ft_unit body')
+    g.item('forward_ft_unit', 'prysm/fttools.py:forward_ft_unit', lambda: get_def(ft, 'forward_ft_unit'), ft_unit,
+           f'def ftUnitNum (len : Nat) (shift : Bool) : Nat → Int := {M}.ftUnitNum len shift')
+
+    def grid_calls(block):
+        """[(target name, axis, call node)] of the forward_ft_unit calls that build the grids"""
         out = []
-        for n in ast.walk(fn):
+        axis = {'obj.shape[0]': 'm', 'obj.shape[1]': 'n'}
+        inner = None
+        rest = []
+        for st in block:
+            if isinstance(st, ast.If) and ast.unparse(st.test) == 'fx is None' and not st.orelse and inner is None:
+                inner = st.body
+            else:
+                rest.append(st)
+        if inner is None:
+            raise Untranslatable('`if fx is None:` not found')
+        for n in inner:
             if not isinstance(n, ast.Assign):
-                continue
+                raise Untranslatable(f'statement in the grid block: {ast.unparse(n)[:50]}')
             t, v = n.targets[0], n.value
             if isinstance(t, ast.Tuple) and isinstance(v, ast.ListComp) and isinstance(v.elt, ast.Call) \
                     and ast.unparse(v.elt.func) == 'forward_ft_unit' and len(v.generators) == 1 \
-                    and ast.unparse(v.generators[0].iter) == 'obj.shape' and len(t.elts) == 2:
+                    and ast.unparse(v.generators[0].iter) == 'obj.shape' and len(t.elts) == 2 and not v.generators[0].ifs:
                 var = v.generators[0].target.id
                 samples = call_arg(v.elt, 1, 'samples')
                 if samples is None or ast.unparse(samples) != var:
                     raise Untranslatable('forward_ft_unit is not called with the axis length')
-                out += [(t.elts[0].id, 'obj.shape[0]', v.elt), (t.elts[1].id, 'obj.shape[1]', v.elt)]
+                out += [(t.elts[0].id, 'm', v.elt), (t.elts[1].id, 'n', v.elt)]
             elif isinstance(t, ast.Name) and isinstance(v, ast.Call) and ast.unparse(v.func) == 'forward_ft_unit':
                 samples = call_arg(v, 1, 'samples')
-                out.append((t.id, ast.unparse(samples) if samples is not None else '?', v))
+                ax = axis.get(ast.unparse(samples)) if samples is not None else None
+                if ax is None:
+                    raise Untranslatable('axis length handed to forward_ft_unit')
+                out.append((t.id, ax, v))
+            else:
+                raise Untranslatable(f'statement in the grid block: {ast.unparse(n)[:50]}')
+        for name, _, call in out:
+            d = call_arg(call, 0, 'dx')
+            if d is None or ast.unparse(d) != 'dx':
+                raise Untranslatable('sample spacing handed to forward_ft_unit')
         if sorted(x[0] for x in out) != ['fx', 'fy']:
             raise Untranslatable(f'frequency grid construction not recognised: {[x[0] for x in out]}')
-        return out
+        return out, rest
 
-    def grid_yx():
-        d = {name: axis for name, axis, _ in grid_calls()}
-        if not all(a in ('obj.shape[0]', 'obj.shape[1]') for a in d.values()):
-            raise Untranslatable(f'axis lengths {d}')
-        return d == {'fy': 'obj.shape[0]', 'fx': 'obj.shape[1]'}
-    fact_item('tfGridIsFtUnitPerAxisYX', 'prysm/convolution.py:apply_transfer_functions', grid_yx)
+    def shift_term(call):
+        a = call_arg(call, 2, 'shift')
+        if a is None:
+            return 'true'                        # forward_ft_unit's default
+        if isinstance(a, ast.Name) and a.id == 'shift':
+            return 'shift'
+        if isinstance(a, ast.Constant) and isinstance(a.value, bool):
+            return 'true' if a.value else 'false'
+        if ast.unparse(a) == 'not shift':
+            return '(!shift)'
+        raise Untranslatable(f'shift argument {ast.unparse(a)}')
 
-    def grid_shift():
-        ok = True
-        for _, _, call in grid_calls():
-            a = call_arg(call, 2, 'shift')
-            if a is None:
-                ok = False                      # default shift=True whatever the convention: the pinned defect
-            elif ast.unparse(a) != 'shift':
-                if isinstance(a, ast.Constant):
-                    ok = False
-                else:
-                    raise Untranslatable(f'shift argument {ast.unparse(a)}')
-        return ok
-    fact_item('tfGridOriginFollowsConvention', 'prysm/convolution.py:apply_transfer_functions', grid_shift)
+    def grid_defs():
+        sc = atf_scan()
+        if sc['gridblock'] is None:
+            raise Untranslatable('grid block not found')
+        calls, _ = grid_calls(sc['gridblock'])
+        d = {name: (ax, shift_term(call)) for name, ax, call in calls}
+        return (f'def tfGridY (m n : Nat) (shift : Bool) : Nat → Int := ftUnitNum {d["fy"][0]} {d["fy"][1]}\n\n'
+                f'def tfGridX (m n : Nat) (shift : Bool) : Nat → Int := ftUnitNum {d["fx"][0]} {d["fx"][1]}')
+    g.item('apply_transfer_functions.grids', 'prysm/convolution.py:apply_transfer_functions',
+           lambda: get_def(cv, 'apply_transfer_functions'), grid_defs,
+           f'def tfGridY (m n : Nat) (shift : Bool) : Nat → Int := ftUnitNum m shift\n'
+           f'def tfGridX (m n : Nat) (shift : Bool) : Nat → Int := ftUnitNum n shift')
 
+    # structural facts (recognisers only, no Lean content): true = recognised and right, false = recognised and wrong,
+    # None / Untranslatable = shape not recognised (tie degraded, widened correspondence)
     def grid_polar():
-        fn = get_def(cv, 'apply_transfer_functions')
-        calls = [n for n in ast.walk(fn) if isinstance(n, ast.Assign) and isinstance(n.value, ast.Call)
-                 and ast.unparse(n.value.func) == 'cart_to_polar']
-        if len(calls) != 1:
-            raise Untranslatable('polar grids are not built by one cart_to_polar call')
-        n = calls[0]
-        return ast.unparse(n.targets[0]) == '(fr, ft)' and [ast.unparse(a) for a in n.value.args] == ['fx', 'fy']
-    fact_item('tfPolarGridFromCartesian', 'prysm/convolution.py:apply_transfer_functions', grid_polar)
+        sc = atf_scan()
+        _, rest = grid_calls(sc['gridblock'])
+        sep = polar = None
+        for st in rest:
+            if isinstance(st, ast.Assign) and isinstance(st.value, ast.Call) and ast.unparse(st.value.func) == 'optimize_xy_separable':
+                sep = st
+            elif isinstance(st, ast.Assign) and isinstance(st.value, ast.Call) and ast.unparse(st.value.func) == 'cart_to_polar':
+                polar = st
+            else:
+                return None
+        if sep is None or polar is None:
+            return None
+
+        def xy(call):
+            a = {kw.arg: ast.unparse(kw.value) for kw in call.keywords}
+            pos = [ast.unparse(x) for x in call.args]
+            x = pos[0] if len(pos) > 0 else a.get('x')
+            y = pos[1] if len(pos) > 1 else a.get('y')
+            return x, y
+        if not isinstance(polar.targets[0], ast.Tuple) or not isinstance(sep.targets[0], ast.Tuple):
+            return None
+        pt = [ast.unparse(t) for t in polar.targets[0].elts]
+        st_ = [ast.unparse(t) for t in sep.targets[0].elts]
+        if sorted(pt) != ['fr', 'ft'] or sorted(st_) != ['fx', 'fy'] or sorted(xy(polar.value)) != ['fx', 'fy'] \
+                or sorted(xy(sep.value)) != ['fx', 'fy']:
+            return None
+        return pt == ['fr', 'ft'] and xy(polar.value) == ('fx', 'fy') and st_ == ['fx', 'fy'] and xy(sep.value) == ('fx', 'fy')
+    g.fact('tfPolarGridFromCartesian', 'prysm/convolution.py:apply_transfer_functions', grid_polar)
 
     def kwargs_table():
-        fn = get_def(cv, 'apply_transfer_functions')
-        pairs = []
-        for n in ast.walk(fn):
-            if isinstance(n, ast.If) and isinstance(n.test, ast.Compare) and len(n.test.ops) == 1 \
-                    and isinstance(n.test.ops[0], ast.In) and ast.unparse(n.test.comparators[0]) == 'params':
-                key = n.test.left.value
-                (st,) = n.body
-                assert ast.unparse(st.targets[0]) == f"kwargs['{key}']"
-                pairs.append((key, ast.unparse(st.value)))
-        pairs.sort()
+        sc = atf_scan()
+        if sc['callbranch'] is None:
+            raise Untranslatable('no `if callable(tf):` branch')
+        pairs = call_branch_pairs(sc['callbranch'])
         body = ', '.join(f'("{a}", "{b}")' for a, b in pairs)
         return f'def tfKwargs : List (String × String) := [{body}]'
     g.item('apply_transfer_functions.kwargs', 'prysm/convolution.py:apply_transfer_functions',
@@ -257,15 +398,45 @@ def generate(repo):
     # ------------------------------------------------------------------ otf.py
     def transform():
         fn = get_def(ot, 'transform_psf')
-        data = find_assigns(fn, 'data')
-        if len(data) != 1:
-            raise Untranslatable('transform_psf: data assigned more than once')
-        (ret,) = find_returns(fn)
-        assert isinstance(ret, ast.Tuple) and ast.unparse(ret.elts[0]) == 'data'
-        # `psf = psf.data` for containers: same array
-        return f'def transformPsf {HDR} (psf : A) : A := {arr_expr(data[0], {"psf": "psf"})}'
+        body = [s for s in fn.body if not _is_doc(s)]
+        array_term = container_term = None
+        cont_env = None
+        for st in body:
+            src = ast.unparse(st)
+            if isinstance(st, ast.If) and src.startswith("if not hasattr(psf, 'ndim'):") and not st.orelse:
+                # container branch: which array of the container goes on
+                env = {'psf.data': 'psf'}
+                for b in st.body:
+                    if ast.unparse(b) == 'dx = psf.dx':
+                        continue
+                    if isinstance(b, ast.Assign) and ast.unparse(b.targets[0]) == 'psf':
+                        cont_env = arr_expr_env(b.value, env)
+                        continue
+                    raise Untranslatable(f'statement in the container branch: {ast.unparse(b)[:50]}')
+                if cont_env is None:
+                    raise Untranslatable('container branch does not take the array out of the container')
+                continue
+            if isinstance(st, ast.If) and ast.unparse(st.test) == 'dx is None' and len(st.body) == 1 and isinstance(st.body[0], ast.Raise):
+                continue
+            if isinstance(st, ast.Assign) and ast.unparse(st.targets[0]) == 'data':
+                if array_term is not None:
+                    raise Untranslatable('transform_psf: data assigned more than once')
+                array_term = arr_expr(st.value, {'psf': 'psf'})
+                container_term = arr_expr(st.value, {'psf': cont_env}) if cont_env is not None else None
+                continue
+            if isinstance(st, ast.Assign) and ast.unparse(st.targets[0]) == 'df':
+                continue
+            if isinstance(st, ast.Return) and isinstance(st.value, ast.Tuple) and ast.unparse(st.value.elts[0]) == 'data':
+                continue
+            raise Untranslatable(f'transform_psf statement {src[:60]}')
+        if array_term is None or container_term is None:
+            raise Untranslatable('transform_psf structure')
+        return (f'def transformPsf {HDR} (psf : A) : A := {array_term}\n\n'
+                f'/-- the same for a container (RichData): `psf` stands for the container\'s `.data` -/\n'
+                f'def transformPsfOfContainer {HDR} (psf : A) : A := {container_term}')
     g.item('transform_psf', 'prysm/otf.py:transform_psf', lambda: get_def(ot, 'transform_psf'), transform,
-           f'def transformPsf {HDR} (psf : A) : A := {M}.transformPsf P psf')
+           f'def transformPsf {HDR} (psf : A) : A := {M}.transformPsf P psf\n'
+           f'def transformPsfOfContainer {HDR} (psf : A) : A := {M}.transformPsf P psf')
 
     def from_psf(pyname, lname):
         def build():
